@@ -19,7 +19,8 @@ RULE = (
     "an own mini reader); decode must return a record equal to the original (floats by bits); "
     "faithfulness: the record minus 'meta' equals the expected record computed from the description "
     "(type chains, units, ranges, enumerators, bindings with str() of every declared value, services); "
-    "every meta cites the declaration's own line of the source.  distinct = grammar-feature set of "
+    "every meta cites the declaration's own line of the source; for a few schemas per run the documented "
+    "`python -m fcp encode` command line is executed and its output file compared.  distinct = grammar-feature set of "
     "the description."
 )
 ASSUMPTIONS = [
@@ -140,6 +141,42 @@ def check(run, decls, text, feats_sig=None):
         run.sample({"schema": text, "reflection_without_meta": got, "encoded_bytes": len(data)})
 
 
+def cli_encode(run, decls, text, k):
+    """The documented path: `fcp encode <reflection schema> <schema> <out>` must write exactly the
+    bytes serde.encode produces in-process (observed through the real command line)."""
+    import shutil
+    import subprocess
+    import sys
+    from fcp import serde
+
+    tmp = env.scratch("c12cli")
+    try:
+        src = os.path.join(tmp, "schema.fcp")
+        open(src, "w").write(text)
+        out = os.path.join(tmp, "out.bin")
+        refl = os.path.join(env.REPO, "src", "fcp", "reflection", "reflection.fcp")
+        p = subprocess.run([sys.executable, "-m", "fcp", "encode", refl, src, out], cwd=tmp, env=env.child_env(), capture_output=True, text=True, timeout=300)
+        case = {"schema": text, "stdout": p.stdout[-500:], "stderr": p.stderr[-800:]}
+        if p.returncode != 0 or not os.path.exists(out):
+            run.violation("`fcp encode` failed (rc=%s) on a well-formed schema" % p.returncode, case)
+            return
+        data = open(out, "rb").read()
+        res, lg = PC.parse_file(src)
+        real, mine = reflection_schema()
+        rec = res.unwrap().reflection()
+        want = ref.encode(mine, "Fcp", rec)
+        if data != want:
+            run.violation("`fcp encode` wrote %d bytes that differ from the canonical encoding of the reflection record (%d bytes)" % (len(data), len(want)), case)
+            return
+        back = serde.decode(real, "Fcp", bytearray(data))
+        if RR.strip_meta(back) != RR.expected(decls):
+            run.violation("the file written by `fcp encode` does not decode to the schema's reflection", case)
+            return
+        run.count("cli_encode_runs")
+    finally:
+        shutil.rmtree(tmp, ignore_errors=True)
+
+
 def run(run):
     import fcp.specs.v2 as V2
     import fcp.specs.impl as IM
@@ -158,12 +195,14 @@ def run(run):
         for f in feats:
             run.count("feature/" + f)
         check(run, decls, S.print_schema(decls), ",".join(sorted(feats)))
+        if i < run.pick(4, 40):
+            cli_encode(run, decls, S.print_schema(decls), i)
     reach.stop()
     run.extra["reach"] = {k: v for k, v in reach.summary(40).items() if "reflection" in k}
 
 
 def conclude(run):
-    run.require("reflections", "records_faithful", "records_encoded", "records_round_tripped", "metas_checked",
+    run.require("cli_encode_runs", "reflections", "records_faithful", "records_encoded", "records_round_tripped", "metas_checked",
                 "feature/impl:signal-block", "feature/param:range", "feature/param:unit", "feature/decl:service", "feature/impl:extension-field")
     feats = {k[8:]: v for k, v in run.counters.items() if k.startswith("feature/")}
     for k in [k for k in run.counters if k.startswith("feature/")]:
